@@ -373,7 +373,7 @@ class WorkerController:
         self.sendcommand("steal", indices=indices)
 
     def shutdown(self) -> None:
-        if not self._down:
+        if not self._down and not self._shutdown_sent:
             try:
                 self.sendcommand("shutdown")
             except OSError:
